@@ -174,6 +174,31 @@ CHECKS = {
 
 NOT_YET = {}
 
+# sub-checks added after the seeded waves (DESIGN.md section 9); appended to the level text
+ADDENDA = {
+    'C01': ' A dotted segment inside Path(...) is part of the menu.',
+    'C02': ' Sub-check literal-arguments: 24 kinds of literal (container subclasses, namedtuple, non-containers, plain containers) x 6 wrappers x 14 argument '
+           'positions on a recording target: everything but plain containers must arrive as the very same object.',
+    'C03': ' Sub-check object-reuse: 22 specs with list / dict / tuple arguments x 10 composite templates, one shared object against separate equal objects.',
+    'C05': ' Sub-check long-values: 13 container kinds of 150 items (subclasses with their own repr, unsorted insertion order) x 4 positions x 6 failing specs; '
+           'the alphabet includes callables that call glom() themselves (and render the inner error before re-raising it).',
+    'C06': ' The pool includes Vars() specs without keyword defaults.',
+    'C07': ' Sub-checks entry-points (all call histories of depth <= 3 (4) over Spec.glom(scope=) / glom(t, spec, scope=) x 4 call scopes x 4 Spec scopes on ONE Spec object, '
+           'and Iter().first(key)) and simultaneous-binding (every S / Let binder with 2-3 keywords whose values read sibling names).',
+    'C08': ' Lazy Iter().map(X) below a wrapper that is a non-last chain link (consumed by a later step or after glom() returned) and all linear '
+           '(wrapper, container) spines of 3 (4) levels are part of the term space; targets have two distinct items per level.',
+    'C09': ' Every accepted case is repeated on the same Match object after the caller modified the first result in place (mutable Optional defaults included).',
+    'C10': ' Sub-check reuse-histories: one combinator object evaluated over all ten targets in both orders (every ordered pair of targets).',
+    'C11': ' Wildcard destinations: four kinds of value (literal, spec reading the target, list / dict literal), one value object shared by all matches, targets in which one container is reached twice.',
+    'C12': ' Wildcard destinations: ignore_missing with a miss in the middle of the broadcast, parent keys named x / X, targets in which one container is reached twice.',
+    'C13': ' Eight families (incl. a registered diamond bottom with an unregistered subclass, all 6 registration orders); register-X, register-Y, register-X-again histories also in the quick tier; '
+           'an object created by missing= during a Glommer call is observed as well.',
+    'C15': ' Sub-spec kinds T, path, [T], [x] with x yielding SKIP / STOP at a marked element.',
+    'C17': ' Terminals include first(key=) selecting an item that is itself falsy.',
+    'C19': ' Targets and literal specs with non-string keys (numeric vs lexicographic order); semantically malformed targets (unhashable key, impossible date, 5000-digit integer, 100000 nesting levels).',
+    'C20': ' The pool (16 entries) includes two different recursive specs using one Ref name and calls through a Glommer whose registry differs from the module registry.',
+}
+
 
 def main():
     props = [json.loads(l) for l in open(os.path.join(HERE, 'properties.jsonl'))]
@@ -190,7 +215,7 @@ def main():
                 'evidence_file': '/verif/evidence/%s.json' % pid,
                 'replay_cmd_template': PY + ' replay {path}',
                 'engine': 'mc',
-                'level_claimed': {'category': cat, 'text': text, 'design_ref': 'DESIGN.md ' + ref},
+                'level_claimed': {'category': cat, 'text': text + ADDENDA.get(pid, ''), 'design_ref': 'DESIGN.md ' + ref},
                 'level_note': note,
                 'technique': tech,
             })
